@@ -11,21 +11,28 @@ use std::path::{PathBuf, MAIN_SEPARATOR};
 
 //@@ INCLUDE pos_types.inc.rs
 //@@ TYPE src/common/result.rs | struct | Cause
+//@@ TYPE src/parse/lex/result.rs | struct | LexErr
+//@@ TYPE src/parse/lex/token.rs | struct | Lex
+//@@ TYPE src/parse/lex/token.rs | enum | Token
 //@@ TYPE src/parse/result.rs | struct | ParseErr
-//@@ TYPE src/check/result.rs | struct | TypeErr | pubfields
+//@@ TYPE src/check/result.rs | struct | TypeErr | pubfields | strip_derive=Eq
 
 verus! {
 
 #[verifier::external_type_specification] pub struct ExPosition(Position);
 #[verifier::external_type_specification] pub struct ExCaretPos(CaretPos);
 #[verifier::external_type_specification] pub struct ExCause(Cause);
+#[verifier::external_type_specification] pub struct ExLexErr(LexErr);
+#[verifier::external_type_specification] pub struct ExLex(Lex);
+#[verifier::external_type_specification] pub struct ExToken(Token);
 #[verifier::external_type_specification] pub struct ExParseErr(ParseErr);
 #[verifier::external_type_specification] pub struct ExTypeErr(TypeErr);
 #[verifier::external_type_specification] #[verifier::external_body] pub struct ExPathBuf(PathBuf);
-#[verifier::external_type_specification] #[verifier::external_body] pub struct ExFormatter<'a>(Formatter<'a>);
-#[verifier::external_type_specification] #[verifier::external_body] pub struct ExFmtError(fmt::Error);
 #[verifier::external_type_specification] #[verifier::external_body] pub struct ExFromUtf8Error(std::string::FromUtf8Error);
 #[verifier::external_type_specification] #[verifier::external_body] pub struct ExLines<'a>(std::str::Lines<'a>);
+
+// A-ARCH: 64-bit target (usize::MAX as i32 == -1 is what the renderer's index arithmetic relies on)
+global size_of usize == 8;
 
 //@@ INCLUDE pos_body.inc.rs
 
@@ -34,7 +41,6 @@ verus! {
 
 // ---- trusted std specifications (A-STD) ----------------------------------------------------------------
 pub assume_specification[<Position as PartialEq>::eq](a: &Position, b: &Position) -> (r: bool) ensures r == (*a == *b);
-pub assume_specification[<Position as PartialEq>::ne](a: &Position, b: &Position) -> (r: bool) ensures r == (*a != *b);
 /// bytes that are all ASCII are valid UTF-8
 pub assume_specification[String::from_utf8](v: Vec<u8>) -> (r: Result<String, std::string::FromUtf8Error>)
     ensures (forall|i: int| 0 <= i < v@.len() ==> v@[i] < 128) ==> r is Ok;
@@ -42,7 +48,6 @@ pub assume_specification<'a>[<String as From<&'a str>>::from](s: &str) -> (r: St
 pub assume_specification<T, U, F: FnOnce(T) -> U>[Option::<T>::map_or](o: Option<T>, d: U, f: F) -> (r: U)
     requires o is Some ==> f.requires((o->Some_0,)),
     ensures o is None ==> r == d, o is Some ==> f.ensures((o->Some_0,), r);
-pub assume_specification[String::new]() -> (r: String) ensures r@ == Seq::<char>::empty();
 
 /// text dropped by the format! rewrite / effect of write! on the Formatter
 #[verifier::external_body] pub fn verif_opaque_string() -> String { unimplemented!() }
@@ -69,7 +74,7 @@ pub open spec fn drawable(p: Position, offset: usize) -> bool {
     p == invisible_spec() || offset * 4 + p.start.pos >= 1
 }
 
-//@@ FN src/common/result.rs | free | format_location
+//@@ FN src/common/result.rs | free | format_location | props=C19,C03
 //@@ OUTLINE
 //@@< let lines = source.lines();
 //@@> /* `source.lines()` is outlined into verif_outline_nth_line below */
@@ -90,7 +95,7 @@ pub open spec fn drawable(p: Position, offset: usize) -> bool {
 //@@> |line: &str| -> (s: String) requires 1 <= pos.start.line < usize::MAX {
 //@@ HINT after
 //@@< let after_line_pos = max(pos.start.line, usize::MAX);
-//@@> proof { assert(usize::MAX as i32 == -1i32) by (bit_vector); assert((-1i32) as usize == usize::MAX) by (bit_vector); }
+//@@> proof { assert(0xffff_ffff_ffff_ffffusize as i32 == -1i32) by (bit_vector); assert((-1i32) as usize == 0xffff_ffff_ffff_ffffusize) by (bit_vector); }
 //@@ CLAIM after
 //@@< let after_line_pos = max(pos.start.line, usize::MAX);
 //@@> assert(pos.start.line >= 1 ==> line_pos == pos.start.line - 1);  //# quoted_line_is_the_reported_line [C19]
@@ -102,6 +107,76 @@ pub open spec fn drawable(p: Position, offset: usize) -> bool {
 //@@> assert(pos.start.line == 0 ==> line_pos == usize::MAX);  //# no_line_quoted_for_line_0 [C19]
     requires coord_ok(pos), drawable(pos, offset), offset <= 0x1000,              //# position_is_drawable [C19,C03]
 //@@ END
+
+/// outline of `path.as_ref().map_or("<unknown>", |p| p.to_str().unwrap_or_default())` (PathBuf is opaque)
+#[verifier::external_body]
+pub fn verif_outline_path_str<'a>(path: &'a Option<PathBuf>) -> &'a str { unimplemented!() }
+/// outline of `self.token.as_ref().map_or(1, |t| t.width())`; the caret run of a lexical error is at least...
+/// nothing is assumed about the value (Token::width is under contract in unit LEX)
+#[verifier::external_body]
+pub fn verif_outline_token_width(t: &Option<Token>) -> (r: usize) { unimplemented!() }
+/// outline of the range index `&v[lo..hi]`: the bounds obligation is KEPT as this helper's precondition
+#[verifier::external_body]
+pub fn verif_outline_slice<'a>(v: &'a Vec<Cause>, lo: usize, hi: usize) -> (r: &'a [Cause])
+    requires lo <= hi <= v@.len(),
+    ensures r@ == v@.subrange(lo as int, hi as int),
+{ unimplemented!() /* outlined text: &v[lo..hi] */ }
+
+pub open spec fn causes_ok(c: Seq<Cause>) -> bool { forall|i: int| 0 <= i < c.len() ==> coord_ok(#[trigger] c[i].pos) }
+
+//@@ FN src/common/result.rs | free | format_err | props=C19,C03
+//@@ OUTLINE
+//@@< path .as_ref() .map_or("<unknown>", |p| p.to_str().unwrap_or_default())
+//@@> verif_outline_path_str(path)
+//@@ OUTLINE count=2
+//@@< path.strip_suffix(MAIN_SEPARATOR).unwrap_or(path)
+//@@> path
+//@@ CLOSURE
+//@@< |pos| pos != cause.pos
+//@@> |pos: Position| -> (b: bool) { pos != cause.pos }
+//@@ LOOPINV
+//@@< for cause in causes
+//@@> invariant causes_ok(causes@),
+    requires
+        pos matches Some(p) ==> coord_ok(p) && drawable(p, 0),                    //# main_position_is_drawable [C19,C03]
+        causes_ok(causes@),                                                      //# cause_coordinates_small [C03]
+//@@ END
+
+impl LexErr {
+//@@ FN src/parse/lex/result.rs | impl Display for LexErr | fmt | props=C19,C03
+//@@ OUTLINE
+//@@< source.lines().nth(self.pos.line - 1)
+//@@> verif_outline_nth_line(source, self.pos.line - 1)
+//@@ OUTLINE
+//@@< self.path .clone() .map_or(String::from("<unknown>"), |p| p.display().to_string())
+//@@> verif_opaque_string()
+//@@ OUTLINE
+//@@< self.token.as_ref().map_or(1, |t| t.width())
+//@@> verif_outline_token_width(&self.token)
+//@@ END
+}
+
+impl ParseErr {
+//@@ FN src/parse/result.rs | impl Display for ParseErr | fmt | props=C19,C03
+//@@ OUTLINE
+//@@< &self.causes[0..
+//@@> verif_outline_slice(&self.causes, 0,
+//@@ OUTLINE
+//@@< )];
+//@@> ));
+    requires
+        coord_ok(self.pos) && drawable(self.pos, 0),                             //# main_position_is_drawable [C19,C03]
+        causes_ok(self.causes@), self.causes@.len() < 0x7fff_0000,               //# cause_coordinates_small [C03]
+//@@ END
+}
+
+impl TypeErr {
+//@@ FN src/check/result.rs | impl Display for TypeErr | fmt | props=C19,C03
+    requires
+        self.pos matches Some(p) ==> coord_ok(p) && drawable(p, 0),              //# main_position_is_drawable [C19,C03]
+        causes_ok(self.causes@),                                                 //# cause_coordinates_small [C03]
+//@@ END
+}
 
 } // verus!
 
